@@ -19,6 +19,8 @@ from functools import wraps
 from typing import Any, TypeVar, Union
 from urllib.parse import quote, quote_plus, urljoin, urlparse
 
+from mwlib.utils.uniq import skip_markers
+
 from mwlib.parser import expr
 
 if_error_rx = re.compile(r'<(div|span|p|strong)\s[^<>]*class="error"[^<>]*>', re.I)
@@ -345,7 +347,7 @@ class PageMagic:
     def URLENCODE(self, args):
         """[MW1.7+] To use a variable (parameter in a template)
         with spaces in an external link."""
-        url = quote_plus(args[0].encode("utf-8"))
+        url = skip_markers(lambda txt: quote_plus(txt.encode("utf-8")), args[0])
         return url
 
     @no_arg
@@ -393,11 +395,11 @@ class NumberMagic:
 class StringMagic:
     @single_arg
     def LC(self, input_string):
-        return input_string.lower()
+        return skip_markers(str.lower, input_string)
 
     @single_arg
     def UC(self, input_string):
-        return input_string.upper()
+        return skip_markers(str.upper, input_string)
 
     @single_arg
     def LCFIRST(self, input_string):
